@@ -167,3 +167,48 @@ SYNTHETIC_EXPRESSIONS = {"TempNode", "FakeExpression", "PlaceholderNode"}  # nev
 @lru_cache(maxsize=1)
 def libmodel() -> LibModel:
     return LibModel()
+
+
+# ---------------------------------------------------------------------- library functions read from source
+@lru_cache(maxsize=None)
+def lib_function(relpath: str, qualname: str) -> ast.FunctionDef:
+    """The definition of ``qualname`` (``f`` or ``Class.f``) in the installed library file ``relpath`` (relative to
+    site-packages).  A missing file or function is an analysis error: the facts taken from it would be stale."""
+    p = _site() / relpath
+    if not p.exists():
+        raise AnalysisError(f"library source {p} not found")
+    body = ast.parse(p.read_text()).body
+    parts = qualname.split(".")
+    node = None
+    for i, part in enumerate(parts):
+        node = next((n for n in body if isinstance(n, (ast.FunctionDef, ast.ClassDef)) and n.name == part), None)
+        if node is None:
+            raise AnalysisError(f"{qualname} not found in library source {p}")
+        body = node.body
+    if not isinstance(node, ast.FunctionDef):
+        raise AnalysisError(f"{qualname} in {p} is not a function")
+    return node
+
+
+def documented_raises(relpath: str, qualname: str) -> list[str]:
+    """Exception classes listed in the ``Raises:`` section of the library function's docstring."""
+    doc = ast.get_docstring(lib_function(relpath, qualname)) or ""
+    out, inside = [], False
+    for line in doc.splitlines():
+        if line.strip() == "Raises:":
+            inside = True
+            continue
+        if inside:
+            if line.strip() and not line.startswith(" "):
+                break
+            if line.strip().endswith(":") and ":" not in line.strip()[:-1]:
+                break
+            head = line.strip().split(":", 1)
+            if len(head) == 2 and head[0].isidentifier():
+                out.append(head[0])
+    return out
+
+
+def reads_ambient(relpath: str, qualname: str, expr: str) -> bool:
+    """Does the library function mention the ambient expression (e.g. ``sys.path``, ``os.getcwd()``)?"""
+    return any(ast.unparse(n) == expr for n in ast.walk(lib_function(relpath, qualname)))
